@@ -195,8 +195,130 @@ fn codec_answer(line: &str) -> String {
             let msg = autd3_protobuf::RxMessage { data };
             rx_answer(guarded(|| Vec::<CoreRx>::from_msg(msg)))
         }
+        // the simulator link itself (`autd3-link-simulator`): an in-process gRPC peer on the loopback interface
+        // answers `read_data` with the given payload / records what `send_data` delivers
+        ["simrx", n, len, seed] => {
+            let (Some(n), Some(len), Some(seed)) = (num(n), num(len), num(seed)) else { return "bad-op".into() };
+            sim_rx_answer(n as usize, lcg_bytes(seed, len as usize))
+        }
+        ["simtx", n, seed] => {
+            let (Some(n), Some(seed)) = (num(n), num(seed)) else { return "bad-op".into() };
+            sim_tx_answer(&mk_frames(n as usize, seed, &l))
+        }
         _ => "bad-op".into(),
     }
+}
+
+// ------------------------------------------------------------------------------------------------
+// the real `Simulator` link against an in-process peer (child process only)
+
+struct MockSim {
+    payload: std::sync::Arc<std::sync::Mutex<Vec<u8>>>,
+    last_tx: std::sync::Arc<std::sync::Mutex<Option<TxRawData>>>,
+}
+
+#[tonic::async_trait]
+impl autd3_protobuf::simulator_server::Simulator for MockSim {
+    async fn config_geomety(&self, _: tonic::Request<autd3_protobuf::Geometry>) -> Result<tonic::Response<autd3_protobuf::GeometryResponse>, tonic::Status> {
+        Ok(tonic::Response::new(autd3_protobuf::GeometryResponse {}))
+    }
+    async fn update_geomety(&self, _: tonic::Request<autd3_protobuf::Geometry>) -> Result<tonic::Response<autd3_protobuf::GeometryResponse>, tonic::Status> {
+        Ok(tonic::Response::new(autd3_protobuf::GeometryResponse {}))
+    }
+    async fn send_data(&self, r: tonic::Request<TxRawData>) -> Result<tonic::Response<autd3_protobuf::SendResponse>, tonic::Status> {
+        *self.last_tx.lock().unwrap() = Some(r.into_inner());
+        Ok(tonic::Response::new(autd3_protobuf::SendResponse {}))
+    }
+    async fn read_data(&self, _: tonic::Request<autd3_protobuf::ReadRequest>) -> Result<tonic::Response<autd3_protobuf::RxMessage>, tonic::Status> {
+        Ok(tonic::Response::new(autd3_protobuf::RxMessage { data: self.payload.lock().unwrap().clone() }))
+    }
+    async fn close(&self, _: tonic::Request<autd3_protobuf::CloseRequest>) -> Result<tonic::Response<autd3_protobuf::CloseResponse>, tonic::Status> {
+        Ok(tonic::Response::new(autd3_protobuf::CloseResponse {}))
+    }
+}
+
+struct SimWorld {
+    payload: std::sync::Arc<std::sync::Mutex<Vec<u8>>>,
+    last_tx: std::sync::Arc<std::sync::Mutex<Option<TxRawData>>>,
+    link: autd3_link_simulator::Simulator,
+    _server_rt: tokio::runtime::Runtime,
+}
+
+thread_local! {
+    static SIM: std::cell::RefCell<Option<Result<SimWorld, String>>> = const { std::cell::RefCell::new(None) };
+}
+
+fn sim_open() -> Result<SimWorld, String> {
+    use autd3_core::link::Link;
+    let payload = std::sync::Arc::new(std::sync::Mutex::new(Vec::new()));
+    let last_tx = std::sync::Arc::new(std::sync::Mutex::new(None));
+    let server_rt = tokio::runtime::Builder::new_multi_thread().worker_threads(1).enable_all().build().map_err(|e| e.to_string())?;
+    let incoming = {
+        let _g = server_rt.enter();
+        tonic::transport::server::TcpIncoming::bind("127.0.0.1:0".parse().unwrap()).map_err(|e| e.to_string())?
+    };
+    let addr = incoming.local_addr().map_err(|e| e.to_string())?;
+    let service = autd3_protobuf::simulator_server::SimulatorServer::new(MockSim { payload: payload.clone(), last_tx: last_tx.clone() });
+    server_rt.spawn(async move {
+        let _ = tonic::transport::Server::builder().serve_with_incoming(service, incoming).await;
+    });
+    let geometry = Geometry::from_msg(autd3_protobuf::Geometry { devices: vec![autd3_protobuf::geometry::Autd3 { pos: None, rot: None, sound_speed: None }] })
+        .map_err(|e| format!("{e:?}"))?;
+    let mut link = autd3_link_simulator::Simulator::new(addr);
+    Link::open(&mut link, &geometry).map_err(|e| format!("{e:?}"))?;
+    Ok(SimWorld { payload, last_tx, link, _server_rt: server_rt })
+}
+
+fn with_sim(f: impl FnOnce(&mut SimWorld) -> String) -> String {
+    SIM.with(|c| {
+        let mut c = c.borrow_mut();
+        if c.is_none() {
+            *c = Some(sim_open());
+        }
+        match c.as_mut().unwrap() {
+            Ok(w) => f(w),
+            Err(_) => "bad-op".into(), // no loopback peer could be started here: reported by the parent as a broken obligation
+        }
+    })
+}
+
+/// `Link::receive` of the real `Simulator` into the first `n` elements of a larger allocation (two guard elements
+/// behind them): `ok <n> <fnv of the n elements afterwards> <guard changed 0|1> 0` / `err <kind>`
+fn sim_rx_answer(n: usize, data: Vec<u8>) -> String {
+    use autd3_core::link::Link;
+    with_sim(|w| {
+        *w.payload.lock().unwrap() = data;
+        let old = CoreRx::new(0xA5, 0x5A);
+        let mut buf = vec![old; n + 2];
+        let r = guarded(|| Link::receive(&mut w.link, &mut buf[..n]));
+        let buf = std::hint::black_box(buf);
+        let guard = buf[n..].iter().any(|g| *g != old) as u8;
+        match r {
+            Err(_) => "panic".into(),
+            Ok(Err(_)) if guard == 0 => "err LinkError".into(),
+            Ok(Err(_)) => "ok 0 0 1 1".into(), // an error AND a write behind the buffer
+            Ok(Ok(())) => {
+                let bytes: Vec<u8> = buf[..n].iter().flat_map(|r| [r.data(), r.ack()]).collect();
+                format!("ok {n} {:016x} {guard} 0", fnv64(&bytes))
+            }
+        }
+    })
+}
+
+/// `Link::send` of the real `Simulator`: what the peer received, `<n> <len> <fnv> same` / `err <kind>`
+fn sim_tx_answer(frames: &[TxMessage]) -> String {
+    use autd3_core::link::Link;
+    with_sim(|w| {
+        *w.last_tx.lock().unwrap() = None;
+        match guarded(|| Link::send(&mut w.link, frames)) {
+            Err(_) => "panic".into(),
+            Ok(Err(_)) => "err LinkError".into(),
+            Ok(Ok(())) => match w.last_tx.lock().unwrap().take() {
+                Some(m) => format!("{} {} {:016x} same", m.n, m.data.len(), fnv64(&m.data)),
+                None => "0 0 0 differ".into(),
+            },
+        }
+    })
 }
 
 fn child_main() {
@@ -436,6 +558,51 @@ fn rx_dec_case(ctx: &mut Ctx, len: usize, seed: u64, tag: &str) {
         ctx.out.violation(
             format!("rx-odd:len={len}"),
             format!("RxMessage with {len} bytes (not a whole number of {}-byte acknowledgements): from_msg answered `{a}` instead of an error {detail}", ctx.l.rx),
+            vec![op],
+        );
+        ctx.restart();
+    }
+}
+
+/// the real simulator link's `receive` on a reply of `len` bytes into a buffer of `n` acknowledgements
+fn sim_rx_case(ctx: &mut Ctx, n: usize, len: usize, seed: u64) {
+    let op = format!("simrx {n} {len} {seed}");
+    let (a, detail) = ctx.ask(&op);
+    ctx.out.line(&op, &a);
+    ctx.out.case(Some(fnv64(format!("simrx{n}:{len}").as_bytes())));
+    let old: Vec<u8> = (0..n).flat_map(|_| [0xA5u8, 0x5A]).collect();
+    let (class, expect) = if len % 2 != 0 {
+        ("odd", "err".to_string())
+    } else if len == 2 * n {
+        ("exact", format!("ok {n} {:016x} 0 0", fnv64(&lcg_bytes(seed, len))))
+    } else {
+        ("other-count", format!("ok {n} {:016x} 0 0", fnv64(&old)))
+    };
+    ctx.out.count(&format!("simulator-link receive[{class}] -> {}", a.split(' ').next().unwrap_or("")));
+    if a != expect {
+        ctx.out.violation(
+            format!("sim-link-receive:{class}:n={n}:len={len}"),
+            format!("Simulator::receive of a {len}-byte reply into {n} acknowledgements answered `{a}`, the property demands `{expect}` (odd length: an error; nothing written outside the buffer; only a reply of exactly {n} elements is copied) {detail}"),
+            vec![op],
+        );
+        ctx.restart();
+    }
+}
+
+/// the real simulator link's `send`: the peer receives the frames byte for byte
+fn sim_tx_case(ctx: &mut Ctx, n: usize, seed: u64) {
+    let op = format!("simtx {n} {seed}");
+    let (a, detail) = ctx.ask(&op);
+    ctx.out.line(&op, &a);
+    ctx.out.case(if n > 0 { Some(fnv64(op.as_bytes())) } else { None });
+    ctx.out.count("simulator-link send");
+    let frames = mk_frames(n, seed, &ctx.l);
+    let bytes: Vec<u8> = frames.iter().flat_map(|f| f.as_bytes().to_vec()).collect();
+    let expect = format!("{n} {} {:016x} same", bytes.len(), fnv64(&bytes));
+    if a != expect {
+        ctx.out.violation(
+            format!("sim-link-send:n={n}"),
+            format!("Simulator::send of {n} frames: the peer received `{a}`, the frames are `{expect}` {detail}"),
             vec![op],
         );
         ctx.restart();
@@ -850,6 +1017,19 @@ pub fn run(args: &Args) {
     }
     for &len in &[4097usize, 65535, 131071] {
         rx_dec_case(&mut ctx, len, 5, "odd");
+    }
+    // ---- the simulator link itself (`autd3-link-simulator`): replies of every length in a window around the true
+    //      size, odd lengths, other device counts; frames through `send`
+    for n in if thorough { 0..=17usize } else { 0..=8usize } {
+        for len in 0..=(2 * n + 5) {
+            sim_rx_case(&mut ctx, n, len, rng.below(1 << 31));
+        }
+    }
+    for &(n, len) in &[(16usize, 33usize), (16, 31), (64, 129), (64, 128), (3, 1025), (1, 0), (249, 499)] {
+        sim_rx_case(&mut ctx, n, len, rng.below(1 << 31));
+    }
+    for n in [0usize, 1, 2, 3, 16] {
+        sim_tx_case(&mut ctx, n, rng.below(1 << 31));
     }
     ctx.restart();
     let spawns = ctx.spawns;
